@@ -1,5 +1,5 @@
 (* Property C06, tabular half: "every export contains exactly one record per selected node (all nodes,
-   or exactly those admitted by max_depth / skip_depth / leaf_only), listed in pre-order or nested as
+   or exactly those let through by max_depth / skip_depth / leaf_only), listed in pre-order or nested as
    the tree is, with the node's exact name, path, parent name and requested attribute values.
    Feeding a full export to the matching constructor returns a tree equal to the original in names,
    shape, sibling order and exported attributes."
